@@ -57,15 +57,40 @@ pub fn b64_decode(s: &[u8]) -> Option<Vec<u8>> {
 }
 
 /// Weak shape reference: "data:" M "," data, where M holds no ','.
+/// The most liberal reading of "media-type" that RFC 2397 / RFC 6838 support: type and subtype
+/// names over the RFC 6838 restricted-name characters (ALPHA DIGIT ! # $ & - ^ _ . +) and '/',
+/// optionally followed by ";attribute=value" parameters whose value may hold anything but ',' and
+/// ';' (in particular %XX escapes). A '%' outside a parameter value is in no reading.
+fn media_type_ok(m: &[u8]) -> bool {
+	let mut in_value = false;
+	for c in m {
+		match *c {
+			b';' => in_value = false,
+			b'=' => in_value = true,
+			b',' => return false,
+			c if in_value => {
+				let _ = c;
+			}
+			c if c.is_ascii_alphanumeric() || b"!#$&-^_.+/".contains(&c) => (),
+			_ => return false,
+		}
+	}
+	true
+}
+
 fn shape(t: &[u8]) -> Option<(Vec<u8>, bool, Vec<u8>)> {
 	let rest = t.strip_prefix(b"data:")?;
 	let comma = rest.iter().position(|c| *c == b',')?;
 	let m = &rest[..comma];
 	let data = rest[comma + 1..].to_vec();
-	match m.strip_suffix(b";base64") {
-		Some(mt) => Some((mt.to_vec(), true, data)),
-		None => Some((m.to_vec(), false, data)),
+	let (mt, b64) = match m.strip_suffix(b";base64") {
+		Some(mt) => (mt.to_vec(), true),
+		None => (m.to_vec(), false),
+	};
+	if !media_type_ok(&mt) {
+		return None;
 	}
+	Some((mt, b64, data))
 }
 
 type Views = (Option<String>, bool, String, (Option<String>, bool, String), Result<Vec<u8>, String>);
@@ -239,7 +264,7 @@ pub fn case(t: &[u8], refs: &Refs, out: &mut Vec<Violation>) -> u64 {
 }
 
 pub fn tokens() -> Vec<Vec<u8>> {
-	let mut v: Vec<Vec<u8>> = ["data:", "dat", ":", ",", ";", "base64", "base64,", "BASE64,", "bAse64", "a", "/", "#", "?", "%41", "%", "=", "A", " ", "QQ==", "+"].iter().map(|s| domains::b(s)).collect();
+	let mut v: Vec<Vec<u8>> = ["data:", "dat", ":", ",", ";", "base64", "base64,", "BASE64,", "bAse64", "a", "/", "#", "?", "%41", "%", "=", "A", " ", "QQ==", "QR==", "QUJ=", "+"].iter().map(|s| domains::b(s)).collect();
 	v.push(vec![0xC3, 0xA9]); // raw non-ASCII bytes
 	v
 }
@@ -253,7 +278,7 @@ struct Slot {
 pub fn run(ctx: &Ctx) -> Report {
 	let refs = Refs::new(&ctx.root);
 	let mut total = Report::new();
-	total.rule = "all sequences of <= n tokens over {data: dat : , ; base64 base64, BASE64, bAse64 a / # ? %41 % = A SP QQ== + é(raw bytes)} as byte strings: both constructors and four string routes agree; acceptance implies URI validity (reference DFA) and the data-URL shape; for accepted values borrowed, owned and owned-through-Deref views (media_type, is_base_64_encoded, encoded_data, parts, decoded_data) coincide and reassemble the text; decoded data equals an independent RFC 4648 decoder; a watchdog turns a non-terminating accessor into a violation; non-trivial = distinct byte string".into();
+	total.rule = "all sequences of <= n tokens over {data: dat : , ; base64 base64, BASE64, bAse64 a / # ? %41 % = A SP QQ== QR== QUJ= + é(raw bytes)} as byte strings: both constructors and four string routes agree; acceptance implies URI validity (reference DFA) and the data-URL shape (media type over RFC 6838 name characters and '/', RFC 2397 parameters allowed, no '%' outside a parameter value); for accepted values borrowed, owned and owned-through-Deref views (media_type, is_base_64_encoded, encoded_data, parts, decoded_data) coincide and reassemble the text; decoded data equals an independent RFC 4648 decoder; a watchdog turns a non-terminating accessor into a violation; non-trivial = distinct byte string".into();
 	let n = ctx.pick(5usize, 6usize);
 	let toks = tokens();
 	let shards = domains::raw_shard_count(toks.len());
